@@ -19,7 +19,7 @@ ROOT = os.path.dirname(os.path.dirname(os.path.abspath(__file__)))
 COQ = os.path.join(ROOT, "coq")
 OCAML = os.path.join(ROOT, "ocaml")
 HARNESS = os.path.join(ROOT, "harness")
-REPO = "/repo"
+REPO = os.environ.get("VERIF_REPO", "/repo")
 VH = os.path.join(HARNESS, "vh")
 VMODEL = os.path.join(OCAML, "_build", "default", "main.exe")
 NCPU = os.cpu_count() or 4
@@ -83,6 +83,8 @@ def build_model():
 def build_harness(race=False):
     """Build vh against /repo's current working tree with the verif tag."""
     sh("cp %s/go.sum %s/go.sum" % (REPO, HARNESS))
+    if REPO != "/repo":
+        sh("go mod edit -replace github.com/amzn/ion-go=%s" % REPO, cwd=HARNESS, env=GOENV)
     out_bin = VH + ("_race" if race else "")
     cmd = "go build -tags verif %s -o %s ./cmd/vh" % ("-race" if race else "", out_bin)
     env = dict(GOENV)
